@@ -3,7 +3,7 @@
 #include "../fw/hx.h"
 #include "../fw/simbus.h"
 #include "../fw/cfg.h"
-#include "/repo/include/bidib.h"
+#include "include/bidib.h"
 #include <stdio.h>
 #include <stdlib.h>
 static void dev_child(const void *job, size_t n) {
